@@ -601,3 +601,81 @@ VARIANTS += [
       "predictions[index] = argmax(arm_to_expectation)",
       "best_arm = argmax(arm_to_expectation)\npredictions[index] = best_arm", benign=True),
 ]
+
+# ---------------------------------------------------------------------------------------------------- C11
+VARIANTS += [
+    V("c11-m1", "C11", "approximate", "_LSHNearest._get_neighbors",
+      "hash_value = self.get_context_hash(row_2d, self.table_to_plane[k])",
+      "hash_value = self.get_context_hash(row_2d, self.table_to_plane[0])", "R11.1",
+      why="query hashed with the first table's planes for every table"),
+    V("c11-m2", "C11", "approximate", "_LSHNearest._get_neighbors",
+      "indices += self.table_to_hash_to_index[k][hash_value[0]]",
+      "indices += self.table_to_hash_to_index[k][hash_value[0] + 1]", "R11.1", why="reader looks into the next bucket"),
+    V("c11-m3", "C11", "approximate", "_ApproximateNeighbors.partial_fit",
+      "self._fit_operation(contexts, context_start=start)",
+      "self._initialize(contexts.shape[1])\nself._fit_operation(contexts, context_start=start)", "R11.2",
+      why="planes redrawn by partial_fit: old rows are filed under other planes than new queries use"),
+    V("c11-m4", "C11", "approximate", "_LSHNearest._add_neighbors",
+      "neighbors = np.where(hash_values == h)[0] + context_start", "neighbors = np.where(hash_values == h)[0]",
+      "R6.5", why="rows of partial_fit filed under batch-local positions"),
+    V("c11-m5", "C11", "approximate", "_LSHNearest.get_context_hash",
+      "projection_signs = 1 * (np.dot(contexts, plane) > 0)",
+      "projection_signs = 1 * (np.abs(np.dot(contexts, plane)) > 0)", "R11.5",
+      why="sign information lost: all rows collide"),
+    V("c11-m6", "C11", "approximate", "_ApproximateNeighbors._predict_contexts", "indices = list(set(indices))", "",
+      "R11.4", why="rows colliding in several tables are counted several times"),
+    V("c11-m7", "C11", "approximate", "_LSHNearest._fit_operation",
+      "hash_values = Parallel(n_jobs=n_jobs, backend=self.backend)((delayed(self.get_context_hash)("
+      "contexts[starts[i]:starts[i + 1]], self.table_to_plane[k]) for i in range(n_jobs)))",
+      "hash_values = Parallel(n_jobs=n_jobs, backend=self.backend)((delayed(self.get_context_hash)("
+      "contexts[starts[i]:starts[i + 1]], self.table_to_plane[0]) for i in range(n_jobs)))", "R11.1",
+      why="all tables filled with the first table's hashes"),
+    V("c11-m8", "C11", "approximate", "_LSHNearest.get_context_hash",
+      "projection_signs = 1 * (np.dot(contexts, plane) > 0)",
+      "projection_signs = 1 * (np.dot(contexts, plane) > 1e-09)", "R11.5",
+      why="threshold other than zero breaks scale invariance"),
+    V("c11-m9", "C11", "approximate", "_LSHNearest._initialize",
+      "self.table_to_plane = {i: self.rng.standard_normal(size=(n_cols, self.n_dimensions)) "
+      "for i in self.table_to_plane.keys()}",
+      "self.table_to_plane = {i: self.rng.standard_normal(size=(self.n_dimensions, n_cols)) "
+      "for i in self.table_to_plane.keys()}", "R11.2", why="plane matrix transposed"),
+    V("c11-b1", "C11", "approximate", "_LSHNearest._get_neighbors",
+      "hash_value = self.get_context_hash(row_2d, self.table_to_plane[k])",
+      "plane = self.table_to_plane[k]\nhash_value = self.get_context_hash(row_2d, plane)", benign=True),
+    V("c11-b2", "C11", "approximate", "_LSHNearest._get_neighbors", "indices = list()", "indices = []", benign=True),
+]
+
+# ---------------------------------------------------------------------------------------------------- C12
+VARIANTS += [
+    V("c12-m1", "C12", "clusters", "_Clusters._fit_operation", "indices = np.where(cluster_predictions == c)",
+      "indices = np.where(cluster_predictions != c)", "R12.1", why="cluster policy trained on the other clusters"),
+    V("c12-m2", "C12", "clusters", "_Clusters._predict_contexts", "cluster = cluster_predictions[index]",
+      "cluster = cluster_predictions[0]", "R12.1", why="every row answered by the first row's cluster"),
+    V("c12-m3", "C12", "clusters", "_Clusters._fit_operation", "c_rewards = self.rewards[indices]",
+      "c_rewards = self.rewards[:len(c_decisions)]", "R12.1", why="rewards not selected by the cluster mask"),
+    V("c12-m4", "C12", "clusters", "_Clusters._fit_operation",
+      "self.lp_list[c].fit(c_decisions, c_rewards, c_contexts)",
+      "self.lp_list[c - 1].fit(c_decisions, c_rewards, c_contexts)", "R12.1",
+      why="policies trained for the neighbouring cluster index"),
+    V("c12-m5", "C12", "treebandit", "_TreeBandit._fit_arm",
+      "rewards_to_add = arm_rewards[leaf_indices == index]", "rewards_to_add = arm_rewards[leaf_indices != index]",
+      "R12.2", why="rewards of the other leaves filed under the leaf"),
+    V("c12-m6", "C12", "treebandit", "_TreeBandit._predict_contexts",
+      "leaf_index = arm_to_tree[arm].apply([row])[0]", "leaf_index = arm_to_tree[arms[0]].apply([row])[0]", "R12.2",
+      why="leaf looked up in the first arm's tree"),
+    V("c12-m7", "C12", "treebandit", "_TreeBandit._fit_arm", "arm_rewards = rewards[decisions == arm]",
+      "arm_rewards = rewards[:len(arm_contexts)]", "R12.2", why="rewards not selected by the arm mask"),
+    V("c12-m8", "C12", "clusters", "_Clusters._predict_contexts",
+      "cluster_predictions = self.kmeans.predict(contexts)",
+      "cluster_predictions = self.kmeans.fit_predict(contexts)", None,
+      why="query batch re-clusters the estimator"),
+    V("c12-m9", "C12", "treebandit", "_TreeBandit._fit_arm",
+      "if len(self.arm_to_leaf_to_rewards[arm]) == 0:\n    self.arm_to_tree[arm].fit(arm_contexts, arm_rewards)",
+      "self.arm_to_tree[arm].fit(arm_contexts, arm_rewards)", "R12.2",
+      why="tree refitted by partial_fit while old rewards stay filed under the old leaves"),
+    V("c12-b1", "C12", "clusters", "_Clusters._fit_operation", "c_decisions = self.decisions[indices]",
+      "selected = indices\nc_decisions = self.decisions[selected]", benign=True),
+    V("c12-b2", "C12", "treebandit", "_TreeBandit._predict_contexts",
+      "leaf_rewards = arm_to_rewards[arm][leaf_index]",
+      "rewards_of_arm = arm_to_rewards[arm]\nleaf_rewards = rewards_of_arm[leaf_index]", benign=True),
+]
